@@ -315,6 +315,49 @@ theorem missing_label_file_err (fs : FS) (discard : Bool) (s : Service) (p : Str
   obtain ⟨e, he⟩ := key s.labelFiles [] hp
   exact ⟨e, by simp [resolveServiceLabels, he]⟩
 
+/-! ## env_file formats (`dotenv.RegisterFormat`) -/
+
+/-- an `env_file` entry with a format that is not registered is an error as soon as something exists at its path -/
+theorem unregistered_format_err (fs : FS) (f : EnvFile) (look : Look) (nd : Node)
+    (hp : fs f.path = some nd) (hnd : nd ≠ .notdir) (hf : f.format ≠ []) (hreg : fs.formats f.format = none) :
+    loadEnvFile fs f look = .error .format := by
+  unfold loadEnvFile
+  rw [hp]
+  cases nd with
+  | notdir => exact absurd rfl hnd
+  | dir => simp [loadMappingFile, hp, hf, parseWithFormat, hreg]
+  | file ls => simp [loadMappingFile, hp, hf, parseWithFormat, hreg]
+
+/-- with a registered format the registered parser decides the content of the layer (and its errors); it is handed the
+    same lookup chain as the dotenv parser -/
+theorem registered_format_used (fs : FS) (f : EnvFile) (look : Look) (nd : Node) (p : FormatParser)
+    (hp : fs f.path = some nd) (hnd : nd ≠ .notdir) (hf : f.format ≠ []) (hreg : fs.formats f.format = some p) :
+    loadEnvFile fs f look = p nd look := by
+  unfold loadEnvFile
+  rw [hp]
+  cases nd with
+  | notdir => exact absurd rfl hnd
+  | dir => simp [loadMappingFile, hp, hf, parseWithFormat, hreg]
+  | file ls => simp [loadMappingFile, hp, hf, parseWithFormat, hreg]
+
+/-- the format is not consulted for a missing file: required ⇒ `notFound`, optional ⇒ skipped, whatever is registered -/
+theorem format_ignored_when_missing (fs : FS) (f : EnvFile) (look : Look) (hm : Missing fs f.path) :
+    loadEnvFile fs f look = if f.required then .error .notFound else .ok [] :=
+  loadEnvFile_missing fs f look hm
+
+/-- label files are always read by the dotenv parser: the registry does not matter -/
+theorem label_files_ignore_formats (fs : FS) (g : Str → Option FormatParser) (p : Str) (look : Look) :
+    loadLabelFile { fs with formats := g } p look = loadLabelFile fs p look := by
+  unfold loadLabelFile
+  show (match fs.node p with | none => _ | some .notdir => _ | some _ => _) = (match fs.node p with | none => _ | some .notdir => _ | some _ => _)
+  cases h : fs.node p with
+  | none => rfl
+  | some nd =>
+    cases nd with
+    | notdir => rfl
+    | dir => simp [loadMappingFile, h]
+    | file ls => simp [loadMappingFile, h]
+
 /-! ## which file fails -/
 
 /-- **env_failure_spec.**  Environment resolution of a service succeeds iff the specification `envFailureFrom` finds no
@@ -445,11 +488,12 @@ theorem env_order_independent (penv penv' : List (Key × Str)) (fs : FS) (discar
     agrees with the list-order model — it fails iff the model fails, with the same error, and otherwise yields the same
     value at every key. -/
 theorem env_any_iteration_order (penv : List (Key × Str)) (fs : FS) (discard : Bool) (s : Service)
-    (hd : Distinct s.environment) (out : Except Err (List (Key × Option Str))) (h : ServiceEnvRun penv fs s out) :
+    (hreg : DefaultFormats fs) (hd : Distinct s.environment) (out : Except Err (List (Key × Option Str)))
+    (h : ServiceEnvRun penv fs s out) :
     Agrees out ((resolveServiceEnv penv fs discard s).map (·.environment)) := by
   obtain ⟨env1, hres, r, hrun, hout⟩ := h
   have hr := filesRun_agrees (loadEnvFile fs) (envChain penv) (envChain_congr penv)
-    (fun f look vars => loadEnvFile_distinct fs f look vars) s.envFiles [] r hrun [] (MapEq.refl _)
+    (fun f look vars => loadEnvFile_distinct fs f look vars hreg) s.envFiles [] r hrun [] (MapEq.refl _)
   rw [← loadEnvFiles_eq_filesLoop] at hr
   unfold resolveServiceEnv
   cases hl : loadEnvFiles penv fs s.envFiles [] with
@@ -653,11 +697,11 @@ def f1 : List Line := [.assign ['A'] [.lit ['1']], .assign ['B'] [.lit ['b'], .v
   .assign ['H'] [.op ['N', 'O'] .colonDash [.lit ['d']], .esc, .var ['A'] false]]
 def f2 : List Line := [.assign ['A'] [.lit ['2']], .assign ['D'] [.lit ['d']], .assign ['G'] [.var ['A'] true]]
 
-def fs0 : FS := fun p =>
+def fs0 : FS := { node := fun p =>
   if p = ['f', '1'] then some (.file f1)
   else if p = ['f', '2'] then some (.file f2)
   else if p = ['d'] then some .dir
-  else none
+  else none }
 
 def penv0 : List (Key × Str) := [(['C'], ['c'])]
 
@@ -669,8 +713,12 @@ def s0 : Service :=
 
 /-- `WFFS`: every value of every file is an unambiguous template -/
 theorem wffs0 : WFFS fs0 := by
+  refine ⟨?_, fun _ => rfl⟩
   intro p ls h
+  show WFLines ls
+  change fs0.node p = _ at h
   unfold fs0 at h
+  simp only at h
   split at h
   · simp only [Option.some.injEq, Node.file.injEq] at h; subst h
     exact wfLines_of_B _ (by decide)
@@ -708,12 +756,20 @@ example : CV.Dotenv.WF (toDotenvLines [.assign ['A'] [.lit ['1']], .bad, .assign
 /-- `env_failure_spec` on concrete files: `f1` sets `A`; a second file requires `A` (satisfied through the earlier file) and
     `NOPE` (unsatisfied): the service fails at that file with `template`, and the specification says so -/
 example :
-    let fsq : FS := fun p => if p = ['f', '1'] then some (.file f1)
+    let fsq : FS := { node := fun p => if p = ['f', '1'] then some (.file f1)
       else if p = ['q'] then some (.file [.assign ['X'] [.op ['A'] .colonQ [.lit ['m']]], .assign ['Y'] [.op ['N', 'O', 'P', 'E'] .q [.lit ['m']]]])
-      else none
+      else none }
     (resolveServiceEnv penv0 fsq false { s0 with envFiles := [⟨['f', '1'], true, []⟩, ⟨['q'], true, []⟩, ⟨['z'], true, []⟩] }).map (·.environment)
       = .error .template ∧
     envFailureFrom penv0 fsq [] [⟨['f', '1'], true, []⟩, ⟨['q'], true, []⟩, ⟨['z'], true, []⟩] = some .template := by
+  decide
+
+/-- hypotheses of `registered_format_used` / `unregistered_format_err`: `f1` read through the registered `c16kv` parser
+    gives the literal text `b${A}` to `B` (no interpolation); the same entry without registration is the `format` error -/
+example :
+    let fsr : FS := { fs0 with formats := fun n => if n = ['k', 'v'] then some kvParser else none }
+    (loadEnvFile fsr ⟨['f', '1'], true, ['k', 'v']⟩ (fun _ => none)).map (lookup ['B']) = .ok (some ['b', '$', '{', 'A', '}']) ∧
+    loadEnvFile fs0 ⟨['f', '1'], true, ['k', 'v']⟩ (fun _ => none) = .error .format := by
   decide
 
 /-- hypotheses of `later_file_wins` hold: `f2` is the last file, gives `A` a value, `environment` does not mention `A` -/
